@@ -191,4 +191,49 @@ LEVEL_NOTE = ('Real concurrency below the granularity of a loop iteration (threa
 # "a -j N run executes the same tests with the same outcomes as the sequential run": the four-mode batch
 # (list / sequential / -j N / resumed children, with and without --shuffle) compares the modes with each other
 import modes          # noqa: E402
-EXTRA_BATCHES = [modes.Batch('mixed', 12, 150)]
+import worldprop      # noqa: E402
+
+
+class OutOfOrder:
+    """Layers with failures that finish in another order than they were started in."""
+    CHK = worldprop.CHK
+    CASE_TYPE = worldprop.CASE_TYPE
+    IMPORTS = worldprop.IMPORTS
+    SHARD = worldprop.SHARD
+    CHECK_FN = 'check_C12'
+    LABEL = 'out-of-order'
+    RULE = ('out-of-order batch: 3..4 layers under -j N, every one with failing and erroring tests, the earlier ones slowed down by a '
+            'test that takes 1..1.5 s so that later layers finish first; the reported lists, totals and verdict are compared with the '
+            'run model (which is the sequential run for these worlds)')
+    EXHAUSTIVE = {}
+
+    def generate(self, rng, tier, rep):
+        cases = []
+        for k in range({'quick': 5, 'thorough': 30, 'search': 3}[tier]):
+            nl = rng.choice([3, 4])
+            layers = [{'name': n, 'bases': [], 'kind': 'instance', 'hooks': {'setUp': ['ok'], 'tearDown': ['ok']}}
+                      for n in sorted(rng.sample(['La', 'Lb', 'Lc', 'Ma', 'Kz'], nl))]
+            tests = []
+            for j in range(nl):
+                if j < nl - 1:
+                    tests.append({'layer': j, 'sleep': 1.5 - 0.5 * j})
+                tests.append({'layer': j, 'body': rng.choice(['fail', 'error'])})
+                tests.append({'layer': j, 'body': rng.choice(['fail', 'error', 'ok'])})
+            cases.append({'layers': layers, 'tests': tests, 'options': ['-j%d' % rng.choice([nl, nl + 1, 2])] + rng.choice([[], ['-v'], ['-vv']])})
+            rep.count('out-of-order layers=%d' % nl)
+        return cases
+
+    def observe(self, cases):
+        return worldprop.observe(cases)
+
+    def to_coq(self, c, o):
+        return worldprop.to_coq(c, o)
+
+    def nontrivial(self, c):
+        return True
+
+    def shrink_candidates(self, c):
+        return []
+
+
+EXTRA_BATCHES = [modes.Batch('mixed', 12, 150), OutOfOrder()]
